@@ -23,3 +23,4 @@ decoder's own checks (`E57/Proofs/WellFormed.lean`, namespace `E57.WF`):
 -/
 import E57.Spec.Decoder
 import E57.Proofs.WellFormed
+import E57.Proofs.XmlRoundTrip
